@@ -137,11 +137,14 @@ static int print_i(void (*printchar_handler)(void *d, int c),
     } while (u);
 
     len = (int)(end - str);
-    zero_count =
-        (len < min_len                                               ? min_len
-         : (ops & OPS_FLAG_ZERO_PAD) && !(ops & OPS_FLAG_LEFT_ALIGN) ? width
-                                                                     : 0) -
-        len - prefix_len;
+    /* the precision is the minimum number of digits (sign and prefix do not
+     * count); the 0 flag pads to the field width and is ignored when a
+     * precision is given or the field is left-justified */
+    zero_count = len < min_len ? min_len - len
+                 : (ops & OPS_FLAG_ZERO_PAD) && !(ops & OPS_FLAG_LEFT_ALIGN) &&
+                         !(ops & OPS_PREC_IS_GIVEN)
+                     ? width - len - prefix_len
+                     : 0;
     zero_count = MAX(zero_count, 0);
     space_count = width - len - prefix_len - zero_count;
     space_count = MAX(space_count, 0);
@@ -592,7 +595,7 @@ int __printf(void (*printchar_handler)(void *d, int c),
                           (size_t)tmp.vp,
                           0,
                           width,
-                          sizeof tmp.vp * 2 + 2,
+                          sizeof tmp.vp * 2,
                           ops | (OPS_FLAG_WITH_SPEC | OPS_FLAG_ZERO_PAD),
                           16);
             break;
